@@ -41,7 +41,11 @@ def save_meta(d, m):
 
 
 def do_import(pid):
-    src = f"/tmp/seed-{pid}/_seeded" if os.path.isdir(f"/tmp/seed-{pid}/_seeded") else (f"/tmp/seed2-{pid}/_seeded" if os.path.isdir(f"/tmp/seed2-{pid}/_seeded") else f"/tmp/seed3-{pid}/_seeded")
+    src = next((d for d in (f"/tmp/seed{r}-{pid}/_seeded"
+                            for r in ("4", "3", "2", ""))
+                if os.path.isdir(d)), None)
+    if src is None:
+        raise SystemExit(f"no seeded directory for {pid}")
     for d in sorted(glob.glob(src + "/*")):
         name = os.path.basename(d)
         dst = os.path.join(SEEDED, name)
